@@ -521,6 +521,8 @@ fn set_delays(r: &mut Rng, on: bool) {
 trait Res: Send + 'static {
     const NAME: &'static str;
     const OWNS_HEAP: bool = false;
+    /// dropping a value of this kind panics (only used where the runtime, on the thread side, drops it)
+    const DROP_PANICS: bool = false;
     fn make(tag: u64) -> Self;
     fn check(&self, tag: u64) -> bool;
 }
@@ -613,6 +615,24 @@ impl Res for A4096 {
     }
     fn check(&self, t: u64) -> bool {
         (core::ptr::from_ref(self) as usize) % 4096 == 0 && self.v == t
+    }
+}
+/// A result whose destructor panics: when the handle was dropped first, the thread itself drops the unclaimed
+/// result, the panic handler then runs with the join state half released
+struct PanicDrop(u64);
+impl Drop for PanicDrop {
+    fn drop(&mut self) {
+        panic!("expected panic in a result destructor");
+    }
+}
+impl Res for PanicDrop {
+    const NAME: &'static str = "panic-in-drop";
+    const DROP_PANICS: bool = true;
+    fn make(t: u64) -> PanicDrop {
+        PanicDrop(t)
+    }
+    fn check(&self, t: u64) -> bool {
+        self.0 == t
     }
 }
 struct Big([u8; 4096]);
@@ -982,7 +1002,7 @@ fn cell_batch<T: Res>(seed: u64, n: usize, disp: Disp, panics: bool, delays: boo
         }
     }
     let dropped_heap = if T::OWNS_HEAP && !panics { o.dropped } else { 0 };
-    let ctx_panics = if panics { o.spawned } else { 0 };
+    let ctx_panics = if panics || T::DROP_PANICS { o.spawned } else { 0 };
     leak_check(disp_name(disp), &before, ctx_panics, dropped_heap);
     println!("@@EVAL {}", o.spawned);
     println!("@@COUNT threads_spawned {}", o.spawned);
@@ -1047,6 +1067,10 @@ fn scen_cells(seed: u64, n: usize) {
     cell_batch::<u128>(seed ^ 17, m, Disp::JoinEarly, true, false, &mut r);
     cell_batch::<A4096>(seed ^ 18, m, Disp::JoinLate, false, false, &mut r);
     cell_batch::<A4096>(seed ^ 19, m, Disp::DropRace, false, true, &mut r);
+    // the thread drops an unclaimed result whose destructor panics (handle dropped first): the panic
+    // handler and the epilogue must still release the join state exactly once
+    cell_batch::<PanicDrop>(seed ^ 20, m, Disp::DropEarly, false, false, &mut r);
+    cell_batch::<PanicDrop>(seed ^ 21, m, Disp::DropEarly, false, true, &mut r);
 }
 
 /// joins and drops that really park, with EINTR / spurious wake-ups injected into the futex waits
